@@ -59,4 +59,7 @@ ThmSubset == U2(LAMBDA ra, rb :
 \* the operands cross
 ThmXorTouch == U2(LAMBDA ra, rb :
       (ClassOf(ra,rb) = "T" /\ CrossPts(ra,rb) # {}) => ClassOf(RSub(ra,rb), RSub(rb,ra)) # "T")
+\* a region is contained in another iff ... its boundary is inside and (sanity of BdryIn):
+\* subset implies the boundary lies in the closed superset
+ThmBdryIn == U2(LAMBDA ra, rb : (rb # 0 /\ RSubset(rb, ra)) => BdryIn(rb, ra, TRUE))
 =============================================================================
